@@ -14,6 +14,9 @@ Src(p)      == [op |-> "src", p |-> p, fn |-> "", v |-> ""]
 Arg(p)      == [op |-> "arg", p |-> p, fn |-> "", v |-> ""]
 Lit(v)      == [op |-> "lit", p |-> "", fn |-> "", v |-> v]
 Slice(p)    == [op |-> "slice", p |-> p, fn |-> "", v |-> ""]
+\* a slice whose element type the generated code cannot name: it may be left alone (reported no match) or
+\* copied - and if it is copied, then like every slice, into fresh storage
+OptSlice(p) == [op |-> "optslice", p |-> p, fn |-> "", v |-> ""]
 Call(fn, a) == [op |-> "call", p |-> "", fn |-> fn, v |-> "", a |-> a]
 \* a source path through a pointer member: undefined when that pointer is nil
 Via(ptr, p) == [op |-> "via", p |-> p, fn |-> ptr, v |-> ""]
@@ -44,6 +47,7 @@ Frag ==
   @@ "slbtag"  :> F("Fslbtag" :> Slice("Fslbtag"), {}, {})                   \* a defined type over []byte
   @@ "slext"   :> F("Fslext" :> Slice("Fslext"), {}, {})                     \* []vrt.VInt -> []vrt.VInt (element type of an imported package)
   @@ "slextp"  :> F("Fslextp" :> Slice("Fslextp"), {}, {})                   \* []*vrt.VS -> []*vrt.VS
+  @@ "slhid"   :> F(("Fh.Entries" :> OptSlice("Fh.Entries")) @@ ("Fh.K" :> Src("Fh.K")), {}, {})   \* []vrt.vhid inside imported structs copied member by member
   @@ "slnest"  :> F(("Fsn.L" :> Slice("Fsn.L")) @@ ("Fsn.K" :> Src("Fsn.K")), {}, {})   \* a slice member of a nested by-value struct
   @@ "nest"    :> F(("Fnest.X" :> Src("Fnest.X")) @@ ("Fnest.Y" :> Src("Fnest.Y")), {}, {})   \* member-wise, by value
   @@ "nestE"   :> F(("FnestE.X" :> Call("CvE2", Src("FnestE.X"))) @@ ("FnestE.Y" :> Src("FnestE.Y")), {"CvE2"}, {"CvE2"})
